@@ -138,9 +138,32 @@ where
             tiles
                 .into_iter()
                 .map(|tile| {
+                    #[cfg(fidget_verif)]
+                    fidget_core::verif::schedule_point(
+                        "tile",
+                        ((tile.corner.x as u64) << 32) | tile.corner.y as u64,
+                    );
                     if eval_config.is_cancelled() {
+                        #[cfg(fidget_verif)]
+                        fidget_core::verif::emit(
+                            "poll",
+                            &[
+                                ("x", tile.corner.x as i64),
+                                ("y", tile.corner.y as i64),
+                                ("cancelled", 1),
+                            ],
+                        );
                         Err(())
                     } else {
+                        #[cfg(fidget_verif)]
+                        fidget_core::verif::emit(
+                            "poll",
+                            &[
+                                ("x", tile.corner.x as i64),
+                                ("y", tile.corner.y as i64),
+                                ("cancelled", 0),
+                            ],
+                        );
                         let pixels = worker.render_tile(&mut rh, tile);
                         Ok((tile, pixels))
                     }
@@ -153,9 +176,32 @@ where
             tiles
                 .into_par_iter()
                 .map_init(init, |(w, rh), tile| {
+                    #[cfg(fidget_verif)]
+                    fidget_core::verif::schedule_point(
+                        "tile",
+                        ((tile.corner.x as u64) << 32) | tile.corner.y as u64,
+                    );
                     if eval_config.is_cancelled() {
+                        #[cfg(fidget_verif)]
+                        fidget_core::verif::emit(
+                            "poll",
+                            &[
+                                ("x", tile.corner.x as i64),
+                                ("y", tile.corner.y as i64),
+                                ("cancelled", 1),
+                            ],
+                        );
                         Err(())
                     } else {
+                        #[cfg(fidget_verif)]
+                        fidget_core::verif::emit(
+                            "poll",
+                            &[
+                                ("x", tile.corner.x as i64),
+                                ("y", tile.corner.y as i64),
+                                ("cancelled", 0),
+                            ],
+                        );
                         let pixels = w.render_tile(rh, tile);
                         Ok((tile, pixels))
                     }
